@@ -192,10 +192,10 @@ class MediaOracle:
         if ref.index is not None and ref.count:
             if ref.index == 0:
                 edge = "trailing"
+            elif ref.index == 1:
+                edge = "trailing+1"      # also when the list has only two entries
             elif ref.index == ref.count - 1:
                 edge = "leading"
-            elif ref.index == 1:
-                edge = "trailing+1"
         tags = self.regime(ref)
         ctype = ref.aset.content_type or "?"
         base_subject = "/".join([ref.kind, ctype, edge] + (["+".join(tags)] if tags else []))
